@@ -60,7 +60,7 @@ ALLOWED_SUB = {
 }
 
 PY_NAMES = ["a", "b", "c", "ab", "a_b", "class_", "x1", "value"]
-SOURCES = ["class", "a-b", "$id", "1x", "not", "d", "A"]
+SOURCES = ["class", "a-b", "$id", "1x", "not", "d", "A", ""]
 CLASS_NAMES = ["Foo", "Bar", "Baz", "Qux", "Quux", "Corge", "Grault", "Garply"]
 
 
@@ -349,7 +349,17 @@ def _node(draw, cfg, depth, gen, kinds=None):
 
     if kind in ("AnyOf", "OneOf", "AllOf"):
         n = draw(st.integers(1, 3))
-        if kind == "AllOf" and n > 1:
+        if kind == "AllOf" and draw(st.integers(0, 5)) == 0:
+            # a union of same-typed alternatives next to a differently constructing member
+            k1, k2 = draw(st.sampled_from([("Integer", "Number"), ("Number", "Integer"), ("String", "Element"),
+                                           ("Integer", "Element"), ("Array", "Element")]))
+            union = {"id": gen.new_id(), "kind": draw(st.sampled_from(["AnyOf", "OneOf"])), "kw": {}}
+            union["elements"] = [draw(_node(cfg, depth - 1, gen, kinds=[k1])) for _ in range(draw(st.integers(1, 2)))]
+            other = draw(_node(cfg, depth - 1, gen, kinds=[k2]))
+            node["elements"] = [union, other] if draw(st.booleans()) else [other, union]
+            # generation order must equal build order (list order) for shared nodes: no refs across the two
+            node["elements"] = repair_refs(node["elements"], index(gen.done + [union, other]))
+        elif kind == "AllOf" and n > 1:
             # satisfiable conjunctions: one arbitrary member, the others mostly untyped
             # constraint elements (the shape the parser produces for sibling keywords)
             main_pos = draw(st.integers(0, n - 1))
